@@ -388,6 +388,20 @@ def verify (sig msg pk : Bytes) : Bool :=
     let c2 := shake256 (mu ++ w1.flatMap polyW1Pack) 32
     c == c2
 
+/-- `unpackSk`: (ρ, key, tr, s1, s2, t0) of a 4864-byte secret key -/
+def unpackSk (sk : Bytes) : Bytes × Bytes × Bytes × List Poly × List Poly × List Poly :=
+  let rest := sk.drop 96
+  let s1 := (chunks 96 (rest.take (L*96))).map polyEtaUnpack
+  let rest := rest.drop (L*96)
+  let s2 := (chunks 96 (rest.take (K*96))).map polyEtaUnpack
+  let rest := rest.drop (K*96)
+  let t0 := (chunks 416 (rest.take (K*416))).map polyT0Unpack
+  (sk.take 32, (sk.drop 32).take 32, (sk.drop 64).take 32, s1, s2, t0)
+
+/-- `unpackPk`: (ρ, t1) of a 2592-byte public key -/
+def unpackPk (pk : Bytes) : Bytes × List Poly :=
+  (pk.take 32, (chunks 320 ((pk.drop 32).take (K*320))).map polyT1Unpack)
+
 /-- `cryptoSign` (sealed message) -/
 def sealMsg (sk msg : Bytes) : Option Bytes := (signDetached shake128 shake256 {} sk msg).map fun r => r.1 ++ msg
 
